@@ -570,7 +570,10 @@ pub fn run(rep: &mut Report) {
 
     // templates
     let iters = 3;
-    let specs = all_specs(iters, thorough);
+    let mut specs = all_specs(iters, thorough);
+    // and every template on one instance far beyond the exhaustive bounds, for a longer run
+    let large_iters = if thorough { 120 } else { 25 };
+    specs.extend(crate::subject::templates::large_specs(large_iters));
     let tseeds: Vec<u64> = if thorough { vec![seed, seed + 1, seed + 2] } else { vec![seed] };
     let pools: Vec<usize> = if thorough { vec![1, 2, 3, 4, 5, 6] } else { vec![1, 4] };
     let mut part = Part::new("templates.rerun-clone-parallel");
@@ -744,7 +747,8 @@ pub fn replay(case: &Value) -> Result<Vec<(String, String)>, String> {
             Ok(check_tree(t, &seeds).into_iter().collect())
         }
         "template" => {
-            let specs = all_specs(3, thorough);
+            let mut specs = all_specs(3, thorough);
+            specs.extend(crate::subject::templates::large_specs(if thorough { 120 } else { 25 }));
             let name = case["spec"].as_str().ok_or("no spec")?;
             let spec = specs.iter().find(|s| s.name() == name).ok_or("spec not found")?;
             // a non-deterministic subject may agree by chance: several attempts
